@@ -463,12 +463,12 @@ func (c *child) canonFreeAlloc() {
 	if c.buddy {
 		name += "-buddy"
 	}
-	if c.buddy {
-		// The buddy allocator hands a freed block out again at once. Only the
-		// seed-demo history, once: it shows the stale-L2 finding on the DMA path;
-		// longer histories under that allocator run into a different anomaly
-		// (see the C11 report: kernel writes lost in EMULATION after the second
-		// free / re-allocate round), which would only obscure this verdict.
+	if c.buddy && c.path == "dma" {
+		// The buddy allocator hands a freed block out again at once. On the DMA
+		// path only the seed-demo history, once: it shows the listed stale-L2
+		// finding; longer histories would report the same defect under further
+		// tag combinations. (The emulation anomaly seen with longer buddy
+		// histories was the uninitialised kernarg tail, repaired in /repo.)
 		cases = cases[:1]
 	}
 	for i, sp := range cases {
@@ -482,7 +482,7 @@ func (c *child) canonFreeAlloc() {
 		th.fq = noForce
 		th.freeAllocMotif(th.seg, sp)
 		// once more in the same process: the motif's own new buffers were freed at its end
-		if !c.buddy {
+		if !(c.buddy && c.path == "dma") {
 			sp.Trigger = []string{"kernel-new", "d2h-other"}[i%2]
 			th.freeAllocMotif(th.seg, sp)
 		}
